@@ -1,6 +1,8 @@
 package main
 
 import (
+	"fmt"
+	"os"
 	"sort"
 	"strings"
 
@@ -90,6 +92,20 @@ func (w *Walker) Run(entry *ssa.Function, roots map[string]*Term, init Facts) {
 	w.entry = funcID(entry)
 	w.entryFn = entry
 	env := w.A.EntryEnv(entry, roots)
+	if len(w.Assume) > 0 {
+		if init == nil {
+			init = Facts{}
+		} else {
+			init = init.Clone()
+		}
+		for _, a := range w.Assume {
+			if !a.Mentions(func(t *Term) bool { return t.Op == "var" }) {
+				x := *a
+				x.Site = "assumed (case split)"
+				init.Add(&x)
+			}
+		}
+	}
 	w.visit(entry, env, init, []Frame{{Fn: funcID(entry)}}, map[*ssa.Function]bool{})
 }
 
@@ -123,7 +139,7 @@ func (w *Walker) correlatedConds(c *FCtx) []*Atom {
 		}
 		fid := funcID(c.Fn) + "#"
 		if pos.Mentions(func(t *Term) bool {
-			return t.Op == "phi" || t.Op == "unk" || ((t.Op == "elem" || t.Op == "mapkey" || t.Op == "mapval") && strings.HasPrefix(t.Name, fid))
+			return t.Op == "phi" || t.Op == "unk" || isSelectIndex(t) || ((t.Op == "elem" || t.Op == "mapkey" || t.Op == "mapval") && strings.HasPrefix(t.Name, fid))
 		}) {
 			continue
 		}
@@ -157,13 +173,18 @@ func (w *Walker) correlatedConds(c *FCtx) []*Atom {
 		if (pos.Pred != "eq" && pos.Pred != "truth") || count[pos.Key()] >= 2 || count[pos.Key()] == 0 {
 			continue
 		}
-		if !diamondWithPhi(b) {
+		if !diamondWithPhi(b) || pos.Mentions(func(t *Term) bool { return t.Op == "phi" || t.Op == "unk" || isSelectIndex(t) }) {
 			continue
 		}
 		res = append(res, first[pos.Key()])
 	}
 	if len(res) > 3 {
 		res = res[:3]
+	}
+	if os.Getenv("LH_DEBUG_SPLITS") != "" {
+		for _, a := range res {
+			fmt.Fprintf(os.Stderr, "split candidate in %s: %s\n", funcID(c.Fn), PPAtom(a))
+		}
 	}
 	return res
 }
@@ -438,4 +459,9 @@ func diamondWithPhi(b *ssa.BasicBlock) bool {
 		}
 	}
 	return false
+}
+
+
+func isSelectIndex(t *Term) bool {
+	return t.Op == "ext" && t.Name == "0" && len(t.Args) == 1 && t.Args[0].Op == "select"
 }
